@@ -97,23 +97,27 @@ def _table_feats(tv):
         f.append("cell_runs")
     if tv.grouped_rows:
         f.append("has_row_group")
+    if tv.grouped_cols:
+        f.append("has_col_group")
     if tv.height == 0:
         f.append("no_rows")
     return f
 
 
-CSV_SAFE_STR = re.compile(r"^[A-Za-z][A-Za-z0-9]*( [A-Za-z0-9]+)*$")
+CSV_SAFE_STR = re.compile(r"^[A-Za-z][A-Za-z0-9]*([ \n][A-Za-z0-9]+)*$")
 
 
 def _csv_domain(tv):
-    """CSV is unambiguous for: ints, bools, None, and plain words that do not
-    parse as another type"""
+    """CSV is unambiguous for: ints, bools, None, and plain words (also on several
+    lines inside one cell, quoted by the writer) that do not parse as another type"""
     for r in tv.rows:
-        for c in r:
+        for i, c in enumerate(r):
             v = c.value
             if v is None or isinstance(v, bool) or isinstance(v, int):
                 continue
             if isinstance(v, str) and CSV_SAFE_STR.match(v) and v.lower() not in ("true", "false", "nan", "inf", "infinity") and not re.match(r"^(P|p)", v):
+                if "\n" in v and i == len(r) - 1:
+                    return False  # (a multi-line field ending a line confuses csv.Sniffer on the unchanged tree: outside the domain)
                 continue
             return False
     return True
@@ -222,6 +226,14 @@ def run_law(eng, op, tv):
                         return [Violation("C17", law + "-moved", name, feats, None, f"cell ({x},{y}) was {old[x]!r}, is {new[x]!r}")]
                 elif not old[x].is_empty(aggressive):
                     return [Violation("C17", law + "-lost", name, feats, None, f"non-empty cell ({x},{y}) {old[x]!r} removed")]
+        # (e) the column declarations are trimmed to the widest row left (both methods say so)
+        # (a row without cells counts for one column in optimize_width, by design; tables whose
+        #  columns sit in wrapper elements are the col-group finding's business)
+        widest = max([len(r) for r in post.rows] + [0])
+        if law == "optimize_width":
+            widest = max(widest, 1)
+        if post.height and not tv.grouped_cols and tv.width >= widest and post.width != widest:
+            return [Violation("C17", law + "-columns-not-trimmed", name, feats, None, f"{post.width} columns declared, the widest row has {widest} cells")]
         # (c) idempotent
         ser1 = t.serialize()
         try:
